@@ -20,6 +20,28 @@ where
     G1: ?Sized + SupportMap,
     G2: ?Sized + SupportMap,
 {
+    // The GJK ray-cast below cannot handle a null relative velocity (it has no direction to cast
+    // along and reports no hit). Without relative motion there is an impact, at time 0, iff the
+    // shapes already are within the target distance.
+    if relative_eq!(vel12.norm(), 0.0) {
+        let contact =
+            details::contact_support_map_support_map(pos12, g1, g2, options.target_distance)?;
+
+        // NOTE: the normal velocity is zero, i.e., not a closing one.
+        return if !options.stop_at_penetration {
+            None
+        } else {
+            Some(ShapeCastHit {
+                time_of_impact: 0.0,
+                normal1: contact.normal1,
+                normal2: contact.normal2,
+                witness1: contact.point1,
+                witness2: contact.point2,
+                status: ShapeCastStatus::PenetratingOrWithinTargetDist,
+            })
+        };
+    }
+
     let gjk_result = if options.target_distance > 0.0 {
         let round_g1 = RoundShapeRef {
             inner_shape: g1,
